@@ -98,6 +98,7 @@ struct Ctl
   // virtual clock
   uint64_t vclock_ns{1718451898ull * 1000000000ull};
   uint64_t clock_tick_ns{1};
+  uint64_t sleep_advance_ns{0}; // virtual time that passes in every interposed sleep (at least the requested duration)
   bool split_frontend_clock{false};
   uint32_t enabled_hooks{0xffffffffu};
 };
